@@ -54,9 +54,7 @@ Theorem C06_establish_transcripts_differ : forall (K : Fld) (close_tag : K) (pk 
   length (pk_y1s pk) = length (pk_y1s pk') -> length (pk_y2s pk) = length (pk_y2s pk') ->
   (pk, cid, cb, mb, ctx) <> (pk', cid', cb', mb', ctx') ->
   establish_transcript close_tag pk cid cb mb p ctx <> establish_transcript close_tag pk' cid' cb' mb' p ctx'.
-Proof. intros K ct pk pk' cid cb mb cid' cb' mb' p ctx ctx' L1 L2 Hne E. apply Hne.
-  destruct (establish_transcript_binds K ct pk pk' cid cb mb cid' cb' mb' p p ctx ctx' L1 L2 E)
-    as (-> & -> & -> & -> & _ & _ & _ & _ & _ & _ & _ & _ & ->). reflexivity. Qed.
+Proof. exact establish_transcripts_differ. Qed.
 
 (** a valid closing signature rejects any single-field substitution in the close-state message (as scalars) *)
 Theorem C06_close_message_substitution : forall (K : Fld) (pk : pkey K) ms s j v,
